@@ -22,7 +22,7 @@ package generator
 //@ spec int64_valued_any(p) = p == nil || !is_float(*p) || (is_int(as_float(*p)) && abs(as_float(*p)) < pow2(63))
 
 //@ func (*numericValidator).generate @float
-//@   props C05 C19 C01 C02
+//@   props C05 C19 C01 C02 C17
 //@   option e2e numeric accept_num(v, x)
 //@   shape out = emitter
 //@   shape *v.exclusiveMinimum = anybool | anyfloat
@@ -30,6 +30,7 @@ package generator
 //@   shape v.isNillable = true | false
 //@   shape v.roundToInt = false
 //@   assigns *out
+//@   ensures [C17] format-independent: independent_of(emitted(out), format)
 //@   ensures [C01,C19] parses: parses(emitted(out)) && !mentions(emitted(out), "j") && out.indent == old(out.indent)
 //@   ensures [C05,C02] value: forall x real :: !v.isNillable && v.multipleOf == nil
 //@       ==> (rejects(emitted(out), sig1(v.fieldName, x)) <==> !accept_num(v, x))
@@ -40,7 +41,7 @@ package generator
 //@   ensures [C19] no-panic: forall x real :: !panics(emitted(out), sig1(v.fieldName, v.isNillable ? ptr_to(x) : x))
 
 //@ func (*numericValidator).generate @int
-//@   props C05 C19 C01 C02
+//@   props C05 C19 C01 C02 C17
 //@   option e2e numeric accept_num(v, x) && mult_ok(v.multipleOf, x)
 //@   shape out = emitter
 //@   shape *v.exclusiveMinimum = anybool | anyfloat
@@ -50,6 +51,7 @@ package generator
 //@   requires int-regime: int64_valued(v.minimum) && int64_valued(v.maximum) && int64_valued_any(v.exclusiveMinimum) && int64_valued_any(v.exclusiveMaximum)
 //@   requires int-multipleof: v.multipleOf == nil || (int64_valued(v.multipleOf) && abs(*v.multipleOf) >= 1)
 //@   assigns *out
+//@   ensures [C17] format-independent: independent_of(emitted(out), format)
 //@   ensures [C01,C19] parses: parses(emitted(out)) && !mentions(emitted(out), "j") && out.indent == old(out.indent)
 //@   ensures [C05,C02] value: forall x int :: !v.isNillable && in_rng("int64", x)
 //@       ==> (rejects(emitted(out), sig1(v.fieldName, x)) <==> !(accept_num(v, x) && mult_ok(v.multipleOf, x)))
@@ -65,12 +67,13 @@ package generator
 //@ spec str_val(nb, nr) = 0 <= nr && nr <= nb && nb <= 4 * nr
 
 //@ func (*stringValidator).generate
-//@   props C06 C19 C01 C02
+//@   props C06 C19 C01 C02 C17
 //@   option e2e string accept_str(v, runes_of(x), matched_of(x))
 //@   shape out = emitter
 //@   shape v.isNillable = true | false
 //@   requires valid-schema: v.minLength >= 0 && v.maxLength >= 0
 //@   assigns *out
+//@   ensures [C17] format-independent: independent_of(emitted(out), format)
 //@   ensures [C01,C19] parses: parses(emitted(out)) && !mentions(emitted(out), "j") && !mentions(emitted(out), "raw") && out.indent == old(out.indent)
 //@   ensures [C06,C02] value: forall nb int :: forall nr int :: forall mt bool :: !v.isNillable && str_val(nb, nr)
 //@       ==> (rejects(emitted(out), sig1(v.fieldName, gstr(nb, nr, mt))) <==> !accept_str(v, nr, mt))
@@ -86,12 +89,13 @@ package generator
 //@ spec accept_arr(v, n, isnil) = isnil || ((v.minItems > 0 ==> n >= v.minItems) && (v.maxItems > 0 ==> n <= v.maxItems))
 
 //@ func (*arrayValidator).generate
-//@   props C07 C19 C01 C02
+//@   props C07 C19 C01 C02 C17
 //@   option e2e array accept_arr(v, len_of(x), isnil_of(x))
 //@   shape out = emitter
 //@   shape v.arrayDepth = 1 | 2 | 3 | 4
 //@   requires valid-schema: v.minItems >= 0 && v.maxItems >= 0
 //@   assigns *out
+//@   ensures [C17] format-independent: independent_of(emitted(out), format)
 //@   ensures [C01,C19] parses: parses(emitted(out)) && !mentions(emitted(out), "j") && !mentions(emitted(out), "raw") && out.indent == old(out.indent)
 //@   ensures [C07,C02] level: forall alen int :: forall anil bool :: alen >= 0
 //@       ==> (rejects(emitted(out), sig1(v.fieldName, garr(v.arrayDepth, anil, alen))) <==> !accept_arr(v, alen, anil))
@@ -101,9 +105,10 @@ package generator
 // graw(isnil, key, has, vnil): the raw key map is nil (document was null) or has
 // / has not the key; vnil: the value under the key is null.
 //@ func (*requiredValidator).generate
-//@   props C04 C19 C01
+//@   props C04 C19 C01 C17
 //@   shape out = emitter
 //@   assigns *out
+//@   ensures [C17] format-independent: independent_of(emitted(out), format)
 //@   ensures [C01,C19] parses: parses(emitted(out)) && !mentions(emitted(out), "j") && !mentions(emitted(out), "plain") && out.indent == old(out.indent)
 //@   ensures [C04] presence: forall rnil bool :: forall has bool :: forall vnil bool :: (rnil ==> !has)
 //@       ==> (rejects(emitted(out), sigma("raw", graw(rnil, v.jsonName, has, vnil))) <==> !rnil && !has)
@@ -122,9 +127,10 @@ package generator
 //@   assigns nothing
 
 //@ func (*defaultValidator).generate
-//@   props C09 C19 C01
+//@   props C09 C19 C01 C17
 //@   shape out = emitter
 //@   assigns *out
+//@   ensures [C17] format-independent: independent_of(emitted(out), format)
 //@   ensures [C01,C19] parses: parses(emitted(out)) && !mentions(emitted(out), "j") && out.indent == old(out.indent)
 //@   ensures [C09] applies: forall rnil bool :: forall has bool :: forall vnil bool :: (rnil ==> !has)
 //@       ==> ((assigned(emitted(out), sigma("raw", graw(rnil, v.jsonName, has, vnil), "plain", gobj(), "plain." + v.fieldName, gobj()), "plain." + v.fieldName)
@@ -139,10 +145,11 @@ package generator
 
 // ---- null ------------------------------------------------------------------
 //@ func (*nullTypeValidator).generate
-//@   props C03 C19 C01
+//@   props C03 C19 C01 C17
 //@   shape out = emitter
 //@   shape v.arrayDepth = 0 | 1 | 2 | 3 | 4
 //@   assigns *out
+//@   ensures [C17] format-independent: independent_of(emitted(out), format)
 //@   ensures [C01,C19] parses: parses(emitted(out)) && !mentions(emitted(out), "j") && !mentions(emitted(out), "raw") && out.indent == old(out.indent)
 //@   ensures [C03] null-only: forall isnil bool :: rejects(emitted(out), sig1(v.fieldName, gnilable(v.arrayDepth, isnil))) <==> !isnil
 //@   ensures [C19] no-panic: forall isnil bool :: !panics(emitted(out), sig1(v.fieldName, gnilable(v.arrayDepth, isnil)))
@@ -173,3 +180,38 @@ package generator
 //@ func (*anyOfValidator).desc
 //@   props C11
 //@   ensures [C11] before-decode: result.beforeJSONUnmarshal && result.hasError
+
+// ---- formatters: the skeleton of a generated Unmarshal method ----------------
+// Validators are abstract here: desc() ranges over the three kinds the
+// formatters distinguish (before-decode, after-decode needing raw, after-decode),
+// generate() emits an opaque fragment marker. Bounded: at most 3 validators
+// (the partition and the emission are per element). The returned closure is
+// applied to a fresh emitter, called `out` in the posts.
+//@ func (*jsonFormatter).generate
+//@   props C19 C04 C09 C01 C17
+//@   option call-result emitter
+//@   shape validators = absvals(0) | absvals(1) | absvals(2) | absvals(3)
+//@   shape declType = decl(T,none) | decl(T,struct) | decl(T,addl2) | decl(Plain,none) | decl(Plain,addl)
+//@   shape output = decls(T) | decls(T,Plain) | decls(Plain) | decls(Plain,Plain_0) | decls(Plain,Plain_0?) | decls(Plain,Plain_0,Plain_1)
+//@   requires declared: map_has(output.declsByName, declType.Name)
+//@   ensures [C01,C19] parses: parses(emitted(out)) && out.indent == 1
+//@   ensures [C19] receiver-last: recv_written_last(emitted(out))
+//@   ensures [C19] error-returns: error_returns_only(emitted(out))
+//@   ensures [C04,C09,C01] raw-ready: raw_ready(emitted(out))
+//@   ensures [C04,C09,C17] order: frags_ordered(emitted(out))
+//@   ensures [C19,C01] shadow: shadow_ok(emitted(out), declType.Name)
+
+//@ func (*yamlFormatter).generate
+//@   props C19 C04 C09 C01 C17
+//@   option call-result emitter
+//@   option twin (*jsonFormatter).generate
+//@   shape validators = absvals(0) | absvals(1) | absvals(2) | absvals(3)
+//@   shape declType = decl(T,none) | decl(T,struct) | decl(T,addl2) | decl(Plain,none) | decl(Plain,addl)
+//@   shape output = decls(T) | decls(T,Plain) | decls(Plain) | decls(Plain,Plain_0) | decls(Plain,Plain_0?) | decls(Plain,Plain_0,Plain_1)
+//@   requires declared: map_has(output.declsByName, declType.Name)
+//@   ensures [C01,C19] parses: parses(emitted(out)) && out.indent == 1
+//@   ensures [C19] receiver-last: recv_written_last(emitted(out))
+//@   ensures [C19] error-returns: error_returns_only(emitted(out))
+//@   ensures [C04,C09,C01] raw-ready: raw_ready(emitted(out))
+//@   ensures [C04,C09,C17] order: frags_ordered(emitted(out))
+//@   ensures [C19,C01] shadow: shadow_ok(emitted(out), declType.Name)
